@@ -22,6 +22,8 @@ import (
 	"sort"
 	"strings"
 	"sync"
+	"syscall"
+	"time"
 
 	"verif/vlib"
 )
@@ -56,6 +58,8 @@ func buildWorker() (string, error) {
 	}
 	return bin, nil
 }
+
+const hangMark = "worker did not finish (killed by the watchdog)"
 
 type raceReport struct {
 	Key  string
@@ -119,7 +123,29 @@ func runWorker(bin string, j job, dir string) (*WorkerOut, []raceReport, error) 
 	cmd.Env = append(os.Environ(), "GORACE=halt_on_error=0 log_path="+jd+"/race", "TMPDIR="+jd)
 	lf, _ := os.Create(jd + "/log")
 	cmd.Stdout, cmd.Stderr = lf, lf
-	err := cmd.Run()
+	// watchdog: a worker normally needs 10-20 s (quick) / 1-3 min (thorough); one that is still running long after
+	// that is wedged (a goroutine of the real code waits for ever): ask the runtime for all stacks, then kill it
+	limit := 120 * time.Second
+	if j.Tier == "thorough" {
+		limit = 900 * time.Second
+	}
+	err := cmd.Start()
+	if err == nil {
+		done := make(chan error, 1)
+		go func() { done <- cmd.Wait() }()
+		select {
+		case err = <-done:
+		case <-time.After(limit):
+			cmd.Process.Signal(syscall.SIGQUIT)
+			select {
+			case <-done:
+			case <-time.After(10 * time.Second):
+				cmd.Process.Kill()
+				<-done
+			}
+			err = fmt.Errorf("%s after %v", hangMark, limit)
+		}
+	}
 	lf.Close()
 	b, rerr := os.ReadFile(outp)
 	if rerr != nil {
@@ -416,7 +442,12 @@ func main() {
 	for _, x := range res {
 		if x.err != nil {
 			msg := x.err.Error()
-			if i := strings.Index(msg, "piotrnar/gocoin/"); i >= 0 && (strings.Contains(msg, "panic:") || strings.Contains(msg, "fatal error:")) {
+			if strings.Contains(msg, hangMark) {
+				// the real code neither finished nor crashed: some goroutine waits for ever (lost wake-up, a wait
+				// for a goroutine that cannot proceed, a spin that nothing ends) — the node would be wedged
+				r.PropFail("hang-under-schedule", "the real code did not finish the scenario (Idle/Save/Close/commit waiting for ever): "+msg,
+					map[string]interface{}{"job": x.j, "log": msg})
+			} else if i := strings.Index(msg, "piotrnar/gocoin/"); i >= 0 && (strings.Contains(msg, "panic:") || strings.Contains(msg, "fatal error:")) {
 				// a goroutine of the real code died under a perturbed schedule (the sequential reference of the same
 				// scenario did not): not recoverable in-process, observed through the exit of the worker
 				r.PropFail("crash-under-schedule", "the real code crashed in a background goroutine while the scenario was replayed under a perturbed schedule: "+msg,
